@@ -155,7 +155,10 @@ def handle (j : Json) : Except String Json := do
   | "binary_sr" =>
     -- binary(use_stochastic_rounding=True) on ONE scale group (a 1-D tensor or one channel): `xs` all its
     -- elements, `us` the draws, `ws` the upstream gradient, `f` = 2·min(max|x|, 1), `imax` the index of the
-    -- arg-max element when max|x| ≤ 1 (f differentiable there), else null.  Output i: (xq_i, d Σ_j w_j y_j / d x_i / w_i)
+    -- (first) arg-max element when max|x| ≤ 1 (`2 * m` depends on it: tangent 2·sign x_i), else null.
+    -- Output i: (xq_i, d Σ_j w_j y_j / d x_i / w_i) — the whole group is differentiated w.r.t. x_i with the
+    -- tangent of `2 * m` fed in, so the model itself shows that the code's stop_gradient (95def59) keeps every
+    -- cross term at 0.
     let an ← getBool cfg "alpha_none"
     let ph := optBool j "phase"
     let xqs ← getRatList j "xqs"
